@@ -88,10 +88,17 @@ CHECKS["C16"] = dict(
           "branching fraction in the requested direction with file order kept among equal values (stability as a filter law), "
           "one common factor; plain: values unchanged; normalize: shown values sum to 1; scale: the factor is scale/max so the "
           "largest shows the scale; contradictory/out-of-range options refused. Exact rationals, unbounded tables. "
-          "Executed only: the %.7g text of each number (checked within half a unit of the 7th digit) and str(float) of parameters."),
-    design="DESIGN.md §5 C16",
-    technique="Coq proof (stable insertion sort: permutation/sortedness/stability; field arithmetic over Q) + differential correspondence on parsed stdout")
-
+          "The number as shown (Dec/Fmt7.v, a model of '{:.7g}'): the seven digits n and exponent e chosen for a positive value satisfy "
+          "10^6 <= n < 10^7 and n is the value scaled to seven integer digits rounded to the nearest integer (ties to even, carry into "
+          "an eighth digit handled), i.e. within half a unit of the seventh significant digit; the text printed for (n, e) — fixed or "
+          "exponent notation, trailing zeros removed — is a numeric literal of the .dec grammar whose value is exactly n*10^(e-6). "
+          "The correspondence compares the printed text of every number with the model's text (for the exact rational and for it moved "
+          "by 2^-46 either way). Executed only: the float arithmetic before the formatting (float(literal), sum, division) and "
+          "str(float) of parameters are CPython's."),
+    design="DESIGN.md §0 (C16 format as built), §5 C16",
+    technique=("Coq proof (stable insertion sort: permutation/sortedness/stability; field arithmetic over Q; correctly rounded decimal "
+               "conversion: div/mod rounding lemma, digit-string / literal-reader round trip) + differential correspondence on parsed stdout, "
+               "printed numbers compared as text"))
 CHECKS["C15"] = dict(
     text=("Theorem over the model of DecayChainViewer's node/edge calls with the process-wide counter: the graph is the root "
           "node plus, for the i-th decay line in depth-first order, exactly one node dec(k+i) with that line's daughters in "
